@@ -12,6 +12,54 @@ CLAIMS = {
              "injection in edge replay (API-only random histories do not need that assumption). Symmetry "
              "permutations are taken from sup.G (their geometric correctness is C27).",
         design="4/C28"),
+    "C32": dict(
+        technique="TLA+ model of the interaction-list evaluator (Sampler.tla) on tables extracted from the real "
+                  "sampler; TLC invariant EnergyIsBrute over every occupation against geometry-enumerated cluster "
+                  "instances; every state replayed through all four evaluators",
+        text="For each small supercell (4-8 mobile sites; spectators; fixed vacancy; clusters that wrap through the "
+             "periodic boundary) TLC visits EVERY mobile occupation and checks that the energy computed from the real "
+             "sampler's interaction tables equals the brute-force sum over cluster instances enumerated from positions "
+             "alone; each state is replayed on evalcluster, expandcluster_matrices and MonteCarloSampler.E(), which "
+             "must all return the model value exactly (integer cluster values).",
+        note="Trusts TLC and the harness's position-based cluster-instance enumerator (it uses the Cluster objects "
+             "produced by makeclusters as the definition of 'the clusters', which is C31's subject). Cluster values are "
+             "even integers so that all energies are exact in floating point.",
+        design="4/C32"),
+    "C33": dict(
+        technique="TLA+ object state machine (Sampler.tla) mirroring start/update/deltaE_trial; TLC exhaustive over all "
+                  "occupations and updates; every edge replayed on the real sampler; random histories trace-validated",
+        text="Exhaustive reachable-state exploration (all occupations; all single-site, swap and sampled multi-site "
+             "updates; vacancy error paths) of the model parameterised by the real sampler's tables, with invariants "
+             "CntIsFunctionOfOcc, SetsPartition, ObsIsFunctionOfOcc, DeltaEExact; each labelled edge replayed on the "
+             "real MonteCarloSampler comparing clustercount, occ, both site sets, E, transitions and the trial energy "
+             "change; 200-step random histories on 18-site supercells validated by TLC.",
+        note="Trusts TLC and the DOT dump; edge replay reaches a source state with start(occ) (API), so no state "
+             "injection is used for the reference sampler.",
+        design="4/C33"),
+    "C34": dict(
+        technique="TLC invariants DetailedBalance / DetailedBalanceVac of Sampler.tla on the jump tables extracted from "
+                  "real samplers (one table per vacancy position), all occupations; every state replayed on the real "
+                  "samplers",
+        text="For every occupation of small supercells and every listed transition TLC checks barrier(fwd) - "
+             "barrier(rev from the final configuration) = E(final) - E(initial) on the extracted tables, with and "
+             "without vacancy, TS clusters and KRA values; the real samplers are then driven through every state and "
+             "transition and must report the model's barriers, the reverse transition with opposite displacement, and "
+             "exact balance.",
+        note="Trusts TLC; integer values make all sums exact. Two too-narrow supercells are recorded as known findings "
+             "(see KNOWN_FINDINGS.jsonl).",
+        design="4/C34"),
+    "C35": dict(
+        technique="TLA+ refinement (SamplerJit.tla extends Sampler.tla with the compiled sampler's arrays); TLC "
+                  "exhaustive; every edge replayed on compiled and reference samplers in lockstep; API-only random "
+                  "histories trace-validated",
+        text="TLC explores all occupations x array orders reachable by start, swap updates and Metropolis batches, "
+             "checking IndexConsistent, JDeltaEqRef, JTransEqRef; each edge is replayed on a real "
+             "MonteCarloSampler_jit and the reference sampler: arrays, index table, counters, E, deltaE_trial, "
+             "transitions (forbidden = inf) and batch == move-by-move are compared with the model and each other; "
+             "120-step API-only histories on 18-site supercells are validated by TLC.",
+        note="Edge replay injects the source state into the compiled sampler's arrays (jitclass attributes); the "
+             "API-only traces do not. Trusts TLC and numba attribute access.",
+        design="4/C35"),
 }
 
 NOT_YET = "check not built yet in this round (planned in DESIGN.md section 4)"
